@@ -144,6 +144,11 @@ func (x *Exec) globalPtr(s *State, g *ssa.Global) *PtrVal {
 	if _, ok := s.Heap[id]; !ok {
 		et := g.Type().(*types.Pointer).Elem()
 		v := x.zero(et)
+		if !x.isInitPkg(g.Pkg) && !types.Identical(et, errorType) && !x.isStubPkg(g.Pkg.Pkg.Path()) && !uninitOK[g.Pkg.Pkg.Path()+"."+g.Name()] {
+			// the initialiser of this package is not executed: its variables would read as zero
+			// values, which is wrong for statically initialised tables
+			x.fail("global %s.%s is used but the initialiser of its package is not executed (add the package to InitPkgs)", g.Pkg.Pkg.Path(), g.Name())
+		}
 		// sentinel errors of packages whose init we do not run: a unique error object per global
 		if types.Identical(et, errorType) && !x.isInitPkg(g.Pkg) {
 			eo := x.newObj(&StructVal{F: []Value{x.str(g.Pkg.Pkg.Path() + "." + g.Name())}}, s)
@@ -155,6 +160,21 @@ func (x *Exec) globalPtr(s *State, g *ssa.Global) *PtrVal {
 }
 
 var errorType = types.Universe.Lookup("error").Type()
+
+// uninitOK lists globals of packages without executed initialiser whose zero value is their
+// correct initial value.
+var uninitOK = map[string]bool{
+	"internal/bytealg.MaxLen":   true,
+	"net/http.NoBody":           true,
+	"context.backgroundCtx":     true,
+	"io.ErrShortWrite":          true,
+	"sync.expunged":             true,
+	"time.localLoc":             true,
+	"time.utcLoc":               true,
+	"time.UTC":                  true,
+	"time.Local":                true,
+	"container/list.init$guard": true,
+}
 
 var cachedErrStrType types.Type
 
